@@ -172,6 +172,51 @@ SHEETS += [
 </xsl:stylesheet>''' % X),
 ]
 
+# ---- failures raised INSIDE lazily evaluated or stack-disciplined machinery; the SAME compiled stylesheet
+# object is used again afterwards (the histories compile these sheets and run them on a failing and
+# then on a quiet source): global variable / param evaluation (guard stack for circular definitions),
+# nested global variables, template-param defaults and with-param inside nested call-template (element
+# frames, params stack), apply-imports (current template / import stacks), attribute sets (recursion stack)
+TERM = '<xsl:if test="@fail"><xsl:message terminate="yes">stop in lazy part</xsl:message></xsl:if>'
+SHEETS += [
+    ("run", "error-in-global-var-body", '''<xsl:stylesheet %s><xsl:output method="text"/>
+ <xsl:variable name="gv"><xsl:for-each select="//item"><x><xsl:value-of select="@id"/></x>%s</xsl:for-each></xsl:variable>
+ <xsl:variable name="gw" select="concat(string($gv), '!')"/>
+ <xsl:template match="/">n=<xsl:value-of select="count(//item)"/>;<xsl:apply-templates select="*"/></xsl:template>
+ <xsl:template match="*"><xsl:value-of select="$gw"/>;<xsl:value-of select="$gv"/></xsl:template>
+</xsl:stylesheet>''' % (X, TERM)),
+    ("run", "error-in-global-var-select", '''<xsl:stylesheet %s %s><xsl:output method="text"/>
+ <xsl:variable name="gs" select="count(//item[%s])"/>
+ <xsl:variable name="g2" select="$gs + count(//item)"/>
+ <xsl:variable name="g3" select="concat($g2, '/', $gs)"/>
+ <xsl:template match="/"><xsl:for-each select="//item[1]"><xsl:value-of select="$g3"/></xsl:for-each>;<xsl:value-of select="$g2"/></xsl:template>
+</xsl:stylesheet>''' % (X, VX, G)),
+    ("run", "error-in-global-param-default", '''<xsl:stylesheet %s %s><xsl:output method="text"/>
+ <xsl:param name="gp" select="concat('d', count(//item[%s]))"/>
+ <xsl:param name="q" select="concat($gp, '-q')"/>
+ <xsl:template match="/">q=<xsl:value-of select="$q"/>;gp=<xsl:value-of select="$gp"/></xsl:template>
+</xsl:stylesheet>''' % (X, VX, G)),
+    ("run", "error-in-call-template-params", '''<xsl:stylesheet %s %s><xsl:output method="text"/>
+ <xsl:template name="outer"><xsl:param name="n"/><xsl:param name="dflt" select="count($n/self::*[%s])"/>
+  <xsl:call-template name="inner"><xsl:with-param name="v" select="concat($dflt, name($n))"/><xsl:with-param name="w"><xsl:for-each select="$n">%s<xsl:value-of select="@id"/></xsl:for-each></xsl:with-param></xsl:call-template></xsl:template>
+ <xsl:template name="inner"><xsl:param name="v"/><xsl:param name="w"/><xsl:param name="z" select="string-length($w)"/>[<xsl:value-of select="concat($v, $w, $z)"/>]</xsl:template>
+ <xsl:template match="/"><xsl:for-each select="//item"><xsl:call-template name="outer"><xsl:with-param name="n" select="."/></xsl:call-template></xsl:for-each></xsl:template>
+</xsl:stylesheet>''' % (X, VX, G, TERM)),
+    ("run", "error-in-apply-imports", '''<xsl:stylesheet %s><xsl:import href="imp.xsl"/><xsl:output method="text"/>
+ <xsl:template match="/"><xsl:apply-templates select="//item" mode="m"/></xsl:template>
+ <xsl:template match="item" mode="m">(<xsl:apply-imports/>)</xsl:template>
+</xsl:stylesheet>''' % X),
+    ("run", "error-in-attribute-set", '''<xsl:stylesheet %s %s><xsl:output method="xml" omit-xml-declaration="yes"/>
+ <xsl:attribute-set name="inner"><xsl:attribute name="a"><xsl:value-of select="string(%s)"/></xsl:attribute></xsl:attribute-set>
+ <xsl:attribute-set name="as" use-attribute-sets="inner"><xsl:attribute name="b"><xsl:value-of select="@id"/></xsl:attribute></xsl:attribute-set>
+ <xsl:template match="/"><r><xsl:for-each select="//item"><e xsl:use-attribute-sets="as"/><xsl:element name="f" use-attribute-sets="as"/></xsl:for-each></r></xsl:template>
+</xsl:stylesheet>''' % (X, VX, G)),
+]
+LAZY_SHEETS = [i for i, t in enumerate(SHEETS) if t[1] in (
+    "error-in-global-var-body", "error-in-global-var-select", "error-in-global-param-default",
+    "error-in-call-template-params", "error-in-apply-imports", "error-in-attribute-set", "error-in-key-build",
+    "error-in-sort-key-text", "error-in-number-count")]
+
 # which sheets use the same facility as an aborting sheet (a failure is followed by one of them)
 FACILITY = {
     "sort": ["sort-text-foreach", "sort-number-apply", "sort-lang", "sort+modes", "error-in-sort-key-text", "error-in-sort-key-number", "error-in-sort-key-second", "rtf+nodeset"],
@@ -202,7 +247,8 @@ SOURCES = [
 ]
 FAIL_SOURCES = [i for i, s_ in enumerate(SOURCES) if 'fail="1"' in s_[1]]
 
-FILES = {"d2.xml": '<d><e k="1">one</e><e k="2">two</e><e k="1">uno</e></d>'}
+FILES = {"d2.xml": '<d><e k="1">one</e><e k="2">two</e><e k="1">uno</e></d>',
+         "imp.xsl": '<xsl:stylesheet %s><xsl:template match="item" mode="m"><xsl:value-of select="@id"/>%s<xsl:apply-templates select="item" mode="m"/></xsl:template></xsl:stylesheet>' % (X, TERM)}
 
 # parameter expressions known to harness/api.cpp (EXPRS[]); index 4 does not evaluate
 EXPRS = ["'p0'", "2 + 3", "concat('a','b')", "string(1 div 0)", "unknownfn()", "'x' = 'x'", "/*", "count(//*)"]
